@@ -415,11 +415,13 @@ pub struct Printer {
     depth: Cell<u32>,
     /// the block being printed ends a function body (its last statement is a tail site)
     in_tail: bool,
+    /// the function whose body is being printed yields a value (declared or implied result)
+    value_fn: bool,
 }
 
 impl Printer {
     pub fn new(opts: PrintOpts) -> Self {
-        Printer { out: String::new(), line: 1, indent: 0, opts, unreachable_lines: Vec::new(), stmt_counter: 0, depth: Cell::new(0), in_tail: false }
+        Printer { out: String::new(), line: 1, indent: 0, opts, unreachable_lines: Vec::new(), stmt_counter: 0, depth: Cell::new(0), in_tail: false, value_fn: false }
     }
 
     fn bracketed<R>(&self, f: impl FnOnce() -> R) -> R {
@@ -554,6 +556,16 @@ impl Printer {
     /// the statement that ends a function body (or a branch of the if / case that ends it)
     fn tail_stmt(&mut self, s: &Stmt) {
         match s {
+            // an if / case that ends a value function is that function's trailing expression as a whole
+            Stmt::Expr(e) if matches!(e, Expr::If(..) | Expr::Case(..)) && self.value_fn && self.opts.ret_mask.is_some() => {
+                let mask = self.opts.ret_mask.unwrap();
+                let k = self.opts.ret_sites.fetch_add(1, std::sync::atomic::Ordering::Relaxed);
+                if k < 64 && mask >> k & 1 == 1 {
+                    self.stmt(&Stmt::Ret(Some(e.clone())));
+                } else {
+                    self.stmt(s);
+                }
+            }
             Stmt::Expr(e) if !matches!(e, Expr::If(..) | Expr::Case(..)) => {
                 let as_ret = match self.opts.ret_mask {
                     Some(mask) => {
@@ -670,7 +682,10 @@ impl Printer {
         match e {
             Expr::Fn(f) => {
                 self.line_out(&format!("{}{}", head, self.fn_header(f)));
+                let old_vf = self.value_fn;
+                self.value_fn = !matches!(f.ret, RetAnn::Void);
                 self.fn_body(&f.body);
+                self.value_fn = old_vf;
                 self.line_out(&format!("end{}", tail));
             }
             Expr::If(bs, el) => {
